@@ -211,8 +211,9 @@ class Case:
 
 
 def build_case(m, n, kind, n_in, n_out, has_change=True, change_pos=None, with_xpubs=False, segwit_flag=False,
-               id_offset=0, reuse_address=False):
-    """honest PSBT of the wallet (cosigners id_offset..id_offset+n-1): created, then updated."""
+               id_offset=0, reuse_address=False, idx_base=0):
+    """honest PSBT of the wallet (cosigners id_offset..id_offset+n-1): created, then updated.
+    idx_base: first address index used (inputs at 0/idx_base+j, change at 1/idx_base)"""
     c = Case()
     ids = list(range(id_offset, id_offset + n))
     c.m, c.n, c.kind, c.ids, c.n_in, c.n_out, c.has_change = m, n, kind, ids, n_in, n_out, has_change
@@ -229,7 +230,7 @@ def build_case(m, n, kind, n_in, n_out, has_change=True, change_pos=None, with_x
     tx_ins, total = [], 0
     c.funding = []
     for j in range(n_in):
-        nm, red, wit, spk = wallet_script(kind, m, ids, 0, 0 if reuse_address else j)
+        nm, red, wit, spk = wallet_script(kind, m, ids, 0, idx_base + (0 if reuse_address else j))
         amount = 100000 + 1000 * j
         prev = funding_tx(j, spk, amount)
         tx_lookup[prev.hash()] = prev
@@ -240,7 +241,7 @@ def build_case(m, n, kind, n_in, n_out, has_change=True, change_pos=None, with_x
     outs = [TxOut(10000 + 100 * j, _foreign_spk(j)) for j in range(n_out - (1 if has_change else 0))]
     c.change_index = None
     if has_change:
-        nm, red, wit, spk = wallet_script(kind, m, ids, 1, 0)
+        nm, red, wit, spk = wallet_script(kind, m, ids, 1, idx_base)
         add_lookups(nm, red, wit)
         pos = (n_out - 1) if change_pos is None else change_pos % n_out
         outs.insert(pos, TxOut(0, spk))
@@ -1109,8 +1110,57 @@ def job_describe(kind, ns, ms=None, quick_skip=False):
             for tid, s2 in tamper_catalogue(case, st):
                 raw2 = S.psbt_ser(s2)
                 judge(rec, "C11.tamper." + tid, raw2, s2, case.wallet, hmap, {"case": case.label, "tamper": tid, "honest": b64(case.updated)})
+            if case.change_index is not None and (idx % 2 == 0 or tier == "thorough"):
+                history_foreign_wallet(rec, case, st, hmap, m, nn, k, a, b, idx + seed, seed % 3)
         return rec.result()
     return run
+
+
+_fresh_index = [1000]
+
+
+def history_foreign_wallet(rec, case, st, hmap, m, nn, kind, n_in, n_out, change_pos, id_offset):
+    """history entry (added after seeded change C11-C: derived cosigner keys memoised per (fingerprint, path) across
+    describe calls): FIRST a self-consistent PSBT of a FOREIGN wallet whose key origins carry the reviewer's fingerprints is
+    described through its own global xpubs (a legitimate call whose answer is not judged), THEN the reviewer's PSBT with the
+    change output redirected to that foreign wallet's script -- annotated with the reviewer's fingerprints and the same paths --
+    is described with the trusted hdpubkey_map.  Whatever the library remembers from the first call must not make the second
+    output look like change."""
+    fo = id_offset + 5                                        # cosigners 5.. : keys the reviewer does not hold
+    # address indexes nothing else in this process has presented before (a memo keyed by fingerprint and path would already
+    # hold the reviewer's own keys for the indexes of the honest cases, and the foreign PSBT would then simply be refused)
+    _fresh_index[0] += 10
+    cx = build_case(m, nn, kind, n_in, n_out, change_pos=change_pos, with_xpubs=True, id_offset=fo, idx_base=_fresh_index[0])
+    fst = S.psbt_parse(cx.updated)
+    relabel = {root(fo + j).fingerprint(): root(id_offset + j).fingerprint() for j in range(nn)}
+
+    def rl(v):
+        return relabel.get(v[:4], v[:4]) + v[4:]
+    fst["xpubs"] = {kk: rl(v) for kk, v in fst["xpubs"].items()}
+    for sec in fst["inputs"] + fst["outputs"]:
+        if sec.get("bip32"):
+            sec["bip32"] = {kk: rl(v) for kk, v in sec["bip32"].items()}
+    poison_raw = S.psbt_ser(fst)
+    field = "redeem_script" if kind == "p2sh" else "witness_script"
+    ci = case.change_index
+    fch = fst["outputs"][cx.change_index]
+    ftx = S.unsigned_tx_parse(fst["tx"])
+    s2 = copy.deepcopy(st)
+    t2 = S.unsigned_tx_parse(st["tx"])
+    s2["outputs"][ci][field] = fch[field]
+    s2["outputs"][ci]["bip32"] = dict(fch["bip32"])
+    t2["outs"][ci]["spk"] = ftx["outs"][cx.change_index]["spk"]
+    s2["tx"] = S.tx_ser_legacy(t2)
+    raw2 = S.psbt_ser(s2)
+    inp = {"case": case.label, "tamper": "change-to-foreign-wallet-claiming-reviewer-fingerprints", "honest": b64(case.updated),
+           "described_before": b64(poison_raw)}
+    # (the tampered PSBT must not be shown to the library before the foreign one: a memo would then hold the reviewer's own keys)
+    first = real_review(poison_raw, None)
+    rec.check("C11.history.foreign-psbt-described-first.sanity", first[0] in ("ok", "raise"), inp, "")
+    judge(rec, "C11.history.out-foreign-wallet-after-foreign-psbt-described", raw2, s2, case.wallet, hmap,
+          dict(inp, first_call=_js(first)))
+    # and the foreign PSBT itself, now under the trusted map: none of its outputs belongs to the reviewer's wallet
+    judge(rec, "C11.history.foreign-psbt-under-trusted-map", poison_raw, fst, case.wallet, hmap, dict(inp, first_call=_js(first)))
 
 
 # =========================================================================== parser strictness (reported as notes)
